@@ -241,8 +241,11 @@ def run_check(prop, tier, spec, nworkers=None, runs=None, budget_s=None, quiet=F
         f = match_finding(findings, prop, k)
         seen_findings.setdefault(f["key"], (f, 0))
         seen_findings[f["key"]] = (f, seen_findings[f["key"]][1] + len(viol_by_key[k]))
-    for fk, (f, n) in sorted(seen_findings.items()):
-        known_lines.append("KNOWN-FINDING: property=%s %s [class %s, %d runs]" % (prop, f["what"], fk, n))
+    for f in findings:
+        if f["property"] != prop:
+            continue
+        n = seen_findings.get(f["key"], (f, 0))[1]
+        known_lines.append("KNOWN-FINDING: property=%s %s [class %s; %s]" % (prop, f["what"], f["key"], ("hit in %d runs of this batch" % n) if n else "not hit in this batch"))
 
     if unknown_keys:
         todo = unknown_keys[: tcfg.get("max_report", 6)]
